@@ -46,6 +46,26 @@ Theorem C32_partial_skips_marked : forall now lm, partial_deleted now lm true = 
 Proof. exact partial_skips_marked_blocks. Qed.
 Print Assumptions C32_partial_skips_marked.
 
+(* Listing faults (getOldestModifiedTime): the listing of a partial block's objects may
+   complete, report no times, or fail before the first / after k objects; on the error path
+   the code uses the expression regenerated into oldest_time_on_error (the ULID creation time).
+   A young partial upload — ULID time and every object's last-modified time within the
+   threshold — is never removed, for EVERY listing outcome. *)
+Theorem C32_young_partial_never_deleted : forall now ulid_t lms fault marked,
+  now - ulid_t <= PartialUploadThresholdAge ->
+  Forall (fun t => now - t <= PartialUploadThresholdAge) lms ->
+  partial_deleted_listing now ulid_t lms fault marked = false.
+Proof. exact young_partial_never_deleted. Qed.
+Print Assumptions C32_young_partial_never_deleted.
+
+(* Without a listing fault a removal satisfies the predicate judged from the bucket's true
+   object times (every object older than the threshold). *)
+Theorem C32_partial_listing_pred : forall t now ulid_t lms marked,
+  t <= now -> Forall (fun x => zero_time < x) lms ->
+  partial_pred_listing now ulid_t lms marked (partial_deleted_listing t ulid_t lms None marked) = true.
+Proof. exact listing_ok_pred. Qed.
+Print Assumptions C32_partial_listing_pred.
+
 (* Link to the check: an action the model takes at instant t satisfies the
    boolean predicate evaluated at any later clock reading (the check evaluates
    it at the reading taken after the call returned). *)
@@ -71,5 +91,7 @@ Example C32_nonvacuous :
   /\ cleaner_deletes 100000000001 50 50000000000 = true
   /\ cleaner_deletes 100000000000 50 50000000000 = false
   /\ partial_deleted (PartialUploadThresholdAge + 8) 7 false = true
-  /\ partial_deleted (PartialUploadThresholdAge + 7) 7 false = false.
+  /\ partial_deleted (PartialUploadThresholdAge + 7) 7 false = false
+  /\ partial_deleted_listing (PartialUploadThresholdAge + 100) 100 [50; 90] (Some 0%nat) false = false
+  /\ partial_deleted_listing (PartialUploadThresholdAge + 100) 50 [50; 90] None false = true.
 Proof. vm_compute. repeat split; reflexivity. Qed.
